@@ -114,6 +114,16 @@ def check_C06(chk):
     chk.borrow(lambda: c14d(chk), "C06.f", 5)
     import rules_create as RC_
     chk.borrow(lambda: RC_.c02g(chk), "C06.g", 7)
+    # `equal the same quantities computed directly from the genotypes`: which genotypes count as 0, 1 or 2 ALT alleles (C08.a/b/c/e)
+    import rules_geno as RG6_
+    def _geno6():
+        g_ = RG6_.GenoFrom(chk)
+        if g_.ok:
+            RG6_.c08a(chk, g_)
+            RG6_.c08b(chk, g_)
+            RG6_.c08c(chk, g_)
+            RG6_.c08e(chk, g_)
+    chk.borrow(_geno6, "C06.h", 5)
     for r, n in (("C06.a", 28), ("C06.b", 16), ("C06.c", 7), ("C06.d", 10), ("C06.e", 6)):
         chk.floor(r, n)
 
@@ -610,6 +620,9 @@ def check_C14(chk):
     # shared clause: Hudson's Fst pairs each population's frequency with its own sample size (decided for C06), else swapping the
     # populations changes it
     chk.borrow(lambda: c06e(chk), "C14.e", 5)
+    # .. which estimator each statistic is (C06.b: an estimator that overrides the shared interior-only summation leaves the monomorphic
+    # classes in), and that f2's per-cell term pairs every cell with its own frequencies (C06.e: the f3/f4 decomposition is over those terms)
+    chk.borrow(lambda: (c06b(chk), f_statistic_formulas(chk), cells_paired_with_frequencies(chk)), "C14.f", 10)
     for r, n in (("C14.a", 7), ("C14.b", 14), ("C14.c", 3), ("C14.d", 5)):
         chk.floor(r, n)
 
